@@ -404,7 +404,9 @@ func (bs *BinarySpray) ReportFailure(bp BundleDescriptor, sender cla.Convergence
 		}).Warn("No metadata")
 		return
 	}
-	binarySprayBlock.SetCopies(metadata.remainingCopies + binarySprayBlock.RemainingCopies())
+	// The copies which were handed to the failed transmission return to this node.
+	metadata.remainingCopies = metadata.remainingCopies + binarySprayBlock.RemainingCopies()
+	binarySprayBlock.SetCopies(metadata.remainingCopies)
 
 	for i := 0; i < len(metadata.sent); i++ {
 		if metadata.sent[i] == sender.GetPeerEndpointID() {
